@@ -108,15 +108,16 @@ class KGFnWrapper:
         if self._sym is not None:
             try:
                 current = self.klong._context[self._sym]
-                if isinstance(current, KGFn) and not isinstance(current, KGCall):
-                    # Use the current definition
-                    if len(args) != current.arity:
-                        raise RuntimeError(f"Klong function called with {len(args)} but expected {current.arity}")
-                    fn_args = [self._as_klong_list(x) if isinstance(x, list) else x for x in args]
-                    return self.klong.call(KGCall(current.a, [*fn_args], current.arity))
             except KeyError:
                 # Symbol was deleted, fall through to original function
-                pass
+                current = None
+            if isinstance(current, KGFn) and not isinstance(current, KGCall):
+                # Use the current definition (a KeyError raised by the function itself is its own failure,
+                # not a missing symbol: it must not run the function a second time)
+                if len(args) != current.arity:
+                    raise RuntimeError(f"Klong function called with {len(args)} but expected {current.arity}")
+                fn_args = [self._as_klong_list(x) if isinstance(x, list) else x for x in args]
+                return self.klong.call(KGCall(current.a, [*fn_args], current.arity))
 
         if len(args) != self.fn.arity:
             raise RuntimeError(f"Klong function called with {len(args)} but expected {self.fn.arity}")
